@@ -7,6 +7,14 @@
 (*         mandatory.rs truncate+postprocess, util.rs OPT helpers) as pure *)
 (*         operators over abstract messages, and `Allowed` written from    *)
 (*         the property text.                                              *)
+(* Part 1b what the stack decides before the service sees a request        *)
+(*         (mandatory.rs / edns.rs / cookies.rs preprocess, with every     *)
+(*         public constructor and switch of the three middleware services *)
+(*         as configuration), for every hostile request shape; cookie      *)
+(*         timestamps in RFC 1982 arithmetic on 2 x 16-bit limbs.           *)
+(* Part 1c how a response comes to be: the builder route, the layout of the *)
+(*         additional section and the last builder operations (recipes);    *)
+(*         the length prefix a stream transport sends in front of it.       *)
 (* Part 2  the stream connection machine (connection.rs + invoker.rs):     *)
 (*         the biased select loop, the spawned per-request tasks, the      *)
 (*         bounded result queue, idle / write timers, flush on shutdown.   *)
@@ -48,17 +56,23 @@ Negotiate(csize, hint) ==
       sh == IF hint = NoV THEN NoV ELSE Max(MinUdp, Min(hint, cl))
   IN IF sh = NoV THEN cl ELSE Min(cl, sh)
 
+\* EdnsMiddlewareSvc::enable(false) passes requests and responses through
+\* unmodified; a request record may carry the switch (field `eon`), without
+\* it the middleware is enabled (EdnsMiddlewareSvc::new)
+EOn(req) == IF "eon" \in DOMAIN req THEN req.eon ELSE TRUE
+
 \* the hint the rest of the stack sees after the EDNS middleware ran
 HintAfter(req, hint) ==
-  IF req.udp /\ req.edns THEN Negotiate(req.csize, hint) ELSE hint
+  IF EOn(req) /\ req.udp /\ req.edns THEN Negotiate(req.csize, hint) ELSE hint
 
 \* edns.rs reserve_space_for_opt
 Reserve(req) ==
-  IF ~req.edns THEN 0
+  IF ~req.edns \/ ~EOn(req) THEN 0
   ELSE IF req.udp THEN OptMin ELSE OptMin + KeepAliveLen
 
 \* edns.rs postprocess (idle timeout of the stream transport is known)
 EdnsPost(req, resp) ==
+  IF ~EOn(req) THEN resp ELSE
   LET strip == IF ~req.edns
                THEN [resp EXCEPT !.len = @ - resp.optlen, !.optlen = 0]
                ELSE resp
@@ -105,7 +119,15 @@ Allowed(req, hint) ==
   ELSE IF hint = NoV THEN Max(512, req.csize)
   ELSE Min(Max(512, req.csize), hint)
 
-UdpSizeOK(req, hint, svcResp) == Final(Dev, req, hint, svcResp).len <= Allowed(req, hint)
+\* the size clause is a claim about the stack the property names; with the
+\* EDNS middleware switched off nobody negotiates and only the transport's
+\* limit (and 512 without OPT) is enforced
+UdpSizeOK(req, hint, svcResp) ==
+  Final(Dev, req, hint, svcResp).len <=
+    (IF EOn(req) THEN Allowed(req, hint)
+     ELSE IF ~req.udp THEN 65535
+     ELSE IF ~req.edns THEN 512
+     ELSE IF hint = NoV THEN 512 ELSE Max(512, hint))
 TcIffDroppedOK(req, hint, svcResp) ==
   LET f == Final(Dev, req, hint, svcResp)
   IN /\ f.dropped => f.tc                       \* the property
@@ -114,7 +136,141 @@ StillParsesOK(req, hint, svcResp) ==
   LET f == Final(Dev, req, hint, svcResp)
   IN /\ f.len = 12 + req.qlen + f.body + f.optlen
      /\ f.body >= 0 /\ f.optlen >= 0
-     /\ (req.edns <=> f.optlen > 0)             \* RFC 6891 6.1.1 / 7
+     /\ EOn(req) => (req.edns <=> f.optlen > 0) \* RFC 6891 6.1.1 / 7
+
+---------------------------------------------------------------------------
+(* Part 1c: how a response comes to be, and its frame.                     *)
+(* A service assembles its answer with a message builder atop a            *)
+(* StreamTarget, whose first two octets announce the length of what        *)
+(* follows; connection.rs writes as_stream_slice() verbatim.  Every builder *)
+(* operation ends by refreshing the prefix (append_slice / truncate ->      *)
+(* update_shim), so the frame is right whatever came last: an append        *)
+(* (plain), a rewound section, a push rolled back at the push limit or at   *)
+(* the 65535-octet ceiling of the target, an OPT cut off again, the OPT     *)
+(* stripped by the EDNS middleware.                                         *)
+
+Recipes0 == {"plain", "rewind", "filllimit", "fill64k", "optfail"}
+Routes0  == {"mk", "new", "from", "newtgt"}     \* mk_builder_for_target, new_stream_vec /
+                                                \* new_stream_bytes, StreamTarget::new, new_vec / new_bytes
+ALays0   == {"none", "before", "after", "both"} \* non-OPT additional records around the OPT
+ARecLen  == 15                                  \* root owner, A record
+AddsOf(alay) == IF alay = "none" THEN 0 ELSE IF alay = "both" THEN 2 * ARecLen ELSE ARecLen
+
+\* builder atop a stream target: [len, shim]
+BNew == [len |-> 0, shim |-> 0]
+BAppend(b, n) == [len |-> b.len + n, shim |-> b.len + n]          \* append_slice; update_shim
+BCut(b, to)   == [len |-> to, shim |-> to]                        \* truncate; update_shim
+\* MessageBuilder::push: append; beyond 65535 the target refuses, at the
+\* limit the builder does: either way truncate back
+BPush(b, n, limit) ==
+  IF b.len + n > 65535 \/ b.len + n >= limit THEN BCut(BAppend(b, n), b.len) ELSE BAppend(b, n)
+
+\* the builder operations a recipe ends with, applied to a message of n octets
+RecipeEnd(recipe, n) ==
+  LET b == BAppend(BNew, n)
+  IN CASE recipe = "rewind"    -> BCut(BAppend(b, ARecLen), n)
+       [] recipe = "filllimit" -> BPush(b, 111, n + 50)
+       [] recipe = "fill64k"   -> BPush(b, 65546, NoV * 1000)
+       [] recipe = "optfail"   -> BCut(BAppend(b, OptMin + 14), n)
+       [] OTHER                -> b
+\* the length prefix in front of a message of n octets that leaves the stack
+\* (whatever the middleware did to it last is an append or a cut as well)
+FrameOf(recipe, n) == BCut(RecipeEnd(recipe, n), n).shim
+\* "correctly framed (two-octet length on streams)"
+FramedOK(recipe, n) == FrameOf(recipe, n) = n /\ RecipeEnd(recipe, n).len = n /\ n <= 65535
+
+---------------------------------------------------------------------------
+(* Part 1b: the stack before the service.                                  *)
+(* cfg  = [strict, eon, con, denied]: MandatoryMiddlewareSvc::new/relaxed, *)
+(*        EdnsMiddlewareSvc::enable, CookiesMiddlewareSvc::enable,         *)
+(*        ::with_denied_ips (the client is on the list or not)             *)
+(* preq = [udp, opcode, qd, nopt, ver, kato, ck]: opcode query | iquery,   *)
+(*        number of questions, number of OPT records, EDNS version,        *)
+(*        edns-tcp-keepalive option carrying a timeout, the first COOKIE   *)
+(*        option ck = [form, hashok, d]: form none | client | badlen |     *)
+(*        std | nonstd, d the distance of the timestamp from the server's  *)
+(*        clock as limbs <<hi, lo>>                                        *)
+
+SL == INSTANCE SerialLimbs WITH LW <- 16
+FiveMinutes == <<0, 300>>
+OneHour == <<0, 3600>>
+ClockNow == <<0, 0>>              \* the server's clock is the origin of d
+TsOf(d) == SL!LAdd(ClockNow, d)
+\* cookies.rs timestamp_ok, clause by clause (Serial `>` is false at
+\* distance 2^31)
+TimestampOk(ts) ==
+  LET tooNewAt  == SL!LAdd(ClockNow, FiveMinutes)
+      expiresAt == SL!LAdd(ts, OneHour)
+  IN IF SL!LGt(ClockNow, expiresAt) THEN FALSE
+     ELSE IF SL!LGt(ts, tooNewAt) THEN FALSE
+     ELSE TRUE
+\* RFC 9018 4.3: one hour into the past, five minutes into the future
+LLe(x, y) == x = y \/ SL!LLess(x, y)
+InWindow(d) == LLe(d, FiveMinutes) \/ LLe(<<65535, 65536 - 3600>>, d)
+
+NoCk == [form |-> "none", hashok |-> FALSE, d |-> <<0, 0>>]
+\* Cookie::check_server_hash: standard server cookie, timestamp, then hash
+CookieValid(ck) == ck.form = "std" /\ TimestampOk(TsOf(ck.d)) /\ ck.hashok
+HasServerPart(ck) == ck.form \in {"std", "nonstd"}
+
+\* rcodes (OptRcode)
+RcNoError == 0  RcFormErr == 1  RcServFail == 2  RcNotImp == 4  RcRefused == 5
+RcBadVers == 16 RcBadCookie == 23
+
+\* who answers and how: [by, rcode, tc, q, ck]; q: the response carries the
+\* request's question section ("req") or none; ck: it carries a COOKIE option
+Verdict(by, rc, tc, q, ck) == [by |-> by, rcode |-> rc, tc |-> tc, q |-> q, ck |-> ck]
+ToService == Verdict("service", RcNoError, FALSE, "req", FALSE)
+
+\* mandatory.rs preprocess
+MandatoryPre(cfg, p) ==
+  IF cfg.strict /\ p.opcode = "iquery" THEN Verdict("mandatory", RcNotImp, FALSE, "req", FALSE)
+  ELSE IF cfg.strict /\ p.opcode = "query" /\ p.qd > 1
+       THEN Verdict("mandatory", RcFormErr, FALSE, "req", FALSE)
+  ELSE ToService
+\* edns.rs preprocess (only looks at requests with an OPT record)
+EdnsPre(cfg, p) ==
+  IF ~cfg.eon \/ p.nopt = 0 THEN ToService
+  ELSE IF p.nopt > 1 THEN Verdict("edns", RcFormErr, FALSE, "req", FALSE)
+  ELSE IF p.ver > 0 THEN Verdict("edns", RcBadVers, FALSE, "req", FALSE)
+  ELSE IF ~p.udp /\ p.kato THEN Verdict("edns", RcFormErr, FALSE, "req", FALSE)
+  ELSE ToService
+\* cookies.rs preprocess; the COOKIE option lives in the first OPT record
+CookiesPre(cfg, p) ==
+  LET ck == IF p.nopt = 0 THEN NoCk ELSE p.ck IN
+  IF ~cfg.con THEN ToService
+  ELSE IF ck.form = "none"
+       THEN IF p.udp /\ cfg.denied THEN Verdict("cookies", RcRefused, TRUE, "none", FALSE)
+            ELSE ToService
+  ELSE IF ck.form = "badlen" THEN Verdict("cookies", RcFormErr, FALSE, "none", FALSE)
+  ELSE IF ~CookieValid(ck)
+       THEN IF p.qd = 0
+            THEN IF ~HasServerPart(ck) THEN Verdict("cookies", RcNoError, FALSE, "req", TRUE)
+                 ELSE Verdict("cookies", RcBadCookie, FALSE, "req", TRUE)
+            ELSE IF p.udp /\ cfg.denied THEN Verdict("cookies", RcBadCookie, FALSE, "req", TRUE)
+            ELSE ToService
+  ELSE IF p.qd = 0 THEN Verdict("cookies", RcNoError, FALSE, "req", TRUE)
+  ELSE ToService
+
+StackVerdict(cfg, p) ==
+  LET m == MandatoryPre(cfg, p) IN
+  IF m.by # "service" THEN m
+  ELSE LET e == EdnsPre(cfg, p) IN
+       IF e.by # "service" THEN e ELSE CookiesPre(cfg, p)
+
+\* middleware/stream.rs size_hint before the first poll and after each of n
+\* items: a mandatory-made response is a ready one-item stream, everything
+\* else sits behind a not yet resolved service future
+HintsFor(by, n) ==
+  IF by = "mandatory" THEN << <<1, 1>>, <<0, 0>> >>
+  ELSE << <<0, NoV>> >> \o [i \in 1..n |-> <<n - i, n - i>>]
+
+\* the property, for whatever arrives: answered exactly once, by somebody
+AnsweredOnce(cfg, p) == StackVerdict(cfg, p).by \in {"mandatory", "edns", "cookies", "service"}
+\* P: a denied UDP client reaches the service only with a valid cookie
+DeniedNeedsValid(cfg, p) ==
+  (cfg.con /\ cfg.denied /\ p.udp /\ StackVerdict(cfg, p).by = "service")
+     => (p.nopt > 0 /\ CookieValid(p.ck))
 
 ---------------------------------------------------------------------------
 (* Framing (connection.rs DnsMessageReceiver) at the octet level, used by  *)
@@ -178,7 +334,28 @@ Script(svc) ==
     [] svc = "huge"    -> <<IBig>>
     [] svc = "xfr"     -> <<FBb, IR, IR, IR, IR, FBe>>
     [] svc = "fblong"  -> <<FBl, IR>>
+    \* request without OPT, answer with OPT: stripped by the EDNS middleware
+    \* (the last builder operation is a cut), once and as a two-item stream
+    [] svc = "strip"   -> <<IR>>
+    [] svc = "strip2"  -> <<IR, IR>>
+    \* request without OPT, answer assembled until a push fails
+    [] svc = "fill"    -> <<IR>>
+    [] svc = "fill64"  -> <<IR>>
+    \* request with a COOKIE option whose server cookie is far away in
+    \* serial-number space / expired / of a forbidden length (the
+    \* cookie middleware answers FORMERR itself)
+    [] svc = "ckfar"   -> <<IR>>
+    [] svc = "ckexp"   -> <<IR>>
+    \* Err(ServiceError) of the other kinds
+    [] svc = "ffail"   -> <<[t |-> "ffail", fb |-> "none"]>>
+    [] svc = "refuse"  -> <<[t |-> "refuse", fb |-> "none"]>>
+    [] svc = "nimp"    -> <<[t |-> "nimp", fb |-> "none"]>>
     [] OTHER           -> <<>>
+
+\* service.rs ServiceError::rcode
+FailItems == {"fail", "ffail", "refuse", "nimp"}
+FailKind(t) == CASE t = "ffail" -> "formerr" [] t = "refuse" -> "refused"
+                 [] t = "nimp" -> "notimp" [] OTHER -> "servfail"
 
 Task(items, permits, disp) ==
   [items |-> items, permits |-> permits, disp |-> disp, status |-> "normal",
@@ -226,8 +403,9 @@ TaskStep(s, r) ==
   ELSE
     LET it == Head(t.items)
         t1 == [t EXCEPT !.items = Tail(@), !.permits = @ - 1]
-    IN CASE it.t = "fail" ->
-              LET resp == Resp(r, "servfail", 0)
+    IN CASE it.t \in FailItems ->
+              \* invoker.rs: Err(e) -> mk_error_response(e.rcode()), Aborting
+              LET resp == Resp(r, FailKind(it.t), 0)
               IN TryEnq([s EXCEPT !.tasks[r] = [t1 EXCEPT !.status = "abort"],
                                   !.yielded = Append(@, resp)], r, resp)
          [] it.t = "fb" ->       \* feedback only: process_feedback, nothing to enqueue
@@ -466,10 +644,10 @@ DgYield(d, r) ==
       t1 == [t EXCEPT !.items = Tail(@), !.permits = @ - 1]
       \* the limit in force when the request was received decides
       cut == it.t = "big" /\ Final({}, BigReqS(r, d.bigs[r]), d.hints[r], BigSvcS(r, d.bigs[r])).tc
-      resp == IF it.t = "fail" THEN Resp(r, "servfail", 0)
+      resp == IF it.t \in FailItems THEN Resp(r, FailKind(it.t), 0)
               ELSE IF cut THEN Resp(r, "trunc", 0)
               ELSE Resp(r, "ans", t.n + 1)
-      t2 == IF it.t = "fail" THEN [t1 EXCEPT !.status = "abort"] ELSE [t1 EXCEPT !.n = @ + 1]
+      t2 == IF it.t \in FailItems THEN [t1 EXCEPT !.status = "abort"] ELSE [t1 EXCEPT !.n = @ + 1]
   IN [d EXCEPT !.tasks[r] = t2, !.yielded = Append(@, resp),
                !.sent = IF d.sendfail > 0 THEN @ ELSE Append(@, resp),
                !.unsent = IF d.sendfail > 0 THEN @ \cup {resp} ELSE @,
